@@ -12,6 +12,10 @@ namespace glm
 	{
 		// get cosine of angle between vectors (-1 -> 1)
 		T CosAlpha = dot(x, y);
+		// Perform a linear interpolation when CosAlpha is close to 1 to avoid sin(Alpha) becoming a zero denominator
+		// (identical vectors would otherwise give 0 / 0 = NaN), as the quaternion mix and slerp do
+		if(CosAlpha > static_cast<T>(1) - epsilon<T>())
+			return x * (static_cast<T>(1) - a) + y * a;
 		// get angle (0 -> pi)
 		T Alpha = acos(CosAlpha);
 		// get sine of angle between vectors (0 -> 1)
